@@ -616,6 +616,21 @@ func (d *db) getAtTx(
 		if err != nil {
 			return nil, err
 		}
+
+		// A reference that is not bound to a transaction is resolved with a second
+		// lookup. On the live index the two lookups may see different states, as
+		// transactions get indexed in between: the result could combine a reference
+		// with a value its target only got after the key had stopped referring to it.
+		// Such a key is read again, together with its target, through one snapshot.
+		if _, live := index.(*store.ImmuStore); live && isUnboundReference(val) {
+			snap, err := d.snapshotSince(ctx, []byte{SetKeyPrefix}, 0)
+			if err != nil {
+				return nil, err
+			}
+			defer snap.Close()
+
+			return d.getAtTx(ctx, key, 0, resolved, snap, 0, skipIntegrityCheck)
+		}
 	} else {
 		txID = atTx
 
@@ -626,6 +641,10 @@ func (d *db) getAtTx(
 	}
 
 	return d.resolveValue(ctx, key, val, resolved, txID, md, index, revision, skipIntegrityCheck)
+}
+
+func isUnboundReference(val []byte) bool {
+	return len(val) >= 1+8 && val[0] == ReferenceValuePrefix && binary.BigEndian.Uint64(val[1:]) == 0
 }
 
 func (d *db) readMetadataAndValue(key []byte, atTx uint64, skipIntegrityCheck bool) (*store.KVMetadata, []byte, error) {
@@ -654,24 +673,38 @@ func (d *db) getAtRevision(ctx context.Context, key []byte, atRevision int64, sk
 		desc = true
 	}
 
-	valRefs, hCount, err := d.st.History(key, offset, desc, 1)
-	if errors.Is(err, store.ErrNoMoreEntries) || errors.Is(err, store.ErrOffsetOutOfRange) {
-		return nil, ErrInvalidRevision
-	}
-	if err != nil {
-		return nil, err
-	}
+	for {
+		valRefs, hCount, err := d.st.History(key, offset, desc, 1)
+		if errors.Is(err, store.ErrNoMoreEntries) || errors.Is(err, store.ErrOffsetOutOfRange) {
+			return nil, ErrInvalidRevision
+		}
+		if err != nil {
+			return nil, err
+		}
 
-	if atRevision < 0 {
-		atRevision = int64(hCount) + atRevision
-	}
+		revision := atRevision
+		if atRevision < 0 {
+			revision = int64(hCount) + atRevision
+		}
 
-	entry, err = d.getAtTx(ctx, key, valRefs[0].Tx(), 0, d.st, uint64(atRevision), skipIntegrityCheck)
-	if err != nil {
-		return nil, err
-	}
+		entry, err = d.getAtTx(ctx, key, valRefs[0].Tx(), 0, d.st, uint64(revision), skipIntegrityCheck)
 
-	return entry, err
+		unboundRef := err != nil || (entry.ReferencedBy != nil && entry.ReferencedBy.AtTx == 0)
+		if atRevision > 0 || !unboundRef {
+			return entry, err
+		}
+
+		// A revision relative to the latest one, held by a reference that is not bound
+		// to a transaction: its target has been looked up after the history. The two
+		// belong to the same state only if the key got no further revision meanwhile.
+		_, hCountNow, herr := d.st.History(key, 0, true, 1)
+		if herr != nil {
+			return nil, herr
+		}
+		if hCountNow == hCount {
+			return entry, err
+		}
+	}
 }
 
 func (d *db) resolveValue(
